@@ -619,6 +619,7 @@ func TestC07_EndToEndLiveness(t *testing.T) {
 		w := []int{1, 2, 3, 5, 8, 64, 4096}[rapid.IntRange(0, 6).Draw(rt, "W")]
 		cfg := netConfig{Window: w, Compression: rapid.Bool().Draw(rt, "compression"), Procs: []int{1, 2, 16}[rapid.IntRange(0, 2).Draw(rt, "procs")],
 			WriteQueue: bufChoices[rapid.IntRange(0, len(bufChoices)-1).Draw(rt, "writeq")]}
+		cfg.Sched = drawSched(rt) // seeded yields, among others between "window insufficient" and the wait for an update
 		sc := &chanScript{ID: chanSeq.Add(1), Variant: rapid.IntRange(0, 1).Draw(rt, "variant")}
 		nc := rapid.IntRange(5, 40).Draw(rt, "nc2s")
 		ns := rapid.IntRange(5, 40).Draw(rt, "ns2c")
